@@ -17,6 +17,7 @@
  Rm memo          : every memoisation construct in the functions behind this property is keyed by everything it reads.
  Rp presence      : optional numeric fields are tested with `is None` / membership, never by truthiness (0 is a value).
  Rv verbose       : blocks guarded by the verbose flag only report; the design does not depend on the logging flag.
+ Rn arg roles     : a variable named like a parameter of the callee is handed to that parameter (no exchanged roles).
 """
 import ast
 
@@ -425,6 +426,15 @@ def rv_verbose(ctx):
     ctx.need('Rv.verbose-pure', 2)
 
 
+def rn_arg_roles(ctx):
+    """Rn: a variable named like a parameter of the callee is handed to that parameter (no exchanged roles such as
+    f(to_degree, from_degree) for def f(from_degree, to_degree)); calls to resolved package functions, canonical form"""
+    from .common import arg_roles_rule
+    from ..memo import scope_funcs
+    n = arg_roles_rule(ctx, 'Rn.arg-roles', scope_funcs(ctx.repo, 'C10'), 'the selection would be made on exchanged targets')
+    ctx.check('Rn.arg-roles', 'argument / parameter name scan', True, 'C10|arg-roles-scan', '', f'{n} argument(s) named like another parameter judged')
+
+
 from ..memo import rule_for as _memo_rule
 
 RULES_MEMO = ('Rm.memo', _memo_rule('C10', 'a model would be ranked or judged with the figures of another library or gain'))
@@ -435,4 +445,4 @@ from ..presence import rule_for as _presence_rule
 RULES_PRESENCE = ('Rp.presence', _presence_rule('C10', 'a legal zero would be read as missing'))
 
 RULES = [('R1.precedence', r1_precedence), ('R2.band-cover', r2_band_cover), ('R3.selection', r3_selection),
-         ('R4.raman-gate', r4_raman_gate), ('R5.capability', r5_capability), RULES_MEMO, RULES_PRESENCE, ('Rv.verbose-pure', rv_verbose)]
+         ('R4.raman-gate', r4_raman_gate), ('R5.capability', r5_capability), RULES_MEMO, RULES_PRESENCE, ('Rv.verbose-pure', rv_verbose), ('Rn.arg-roles', rn_arg_roles)]
